@@ -7,6 +7,7 @@ CONSTANTS
   MaxClock = 2
   MaxRm = 2
   Interval = 1
+  RegOrder = "locked"
   RemoveBy = "instance"
   Results = {"keep", "stop"}
   KeepHist = "off"
